@@ -56,12 +56,16 @@ func (c *Ctx) lpHelpersAcceptSpecLengths() {
 		}
 		an.Run(fn)
 		k := 0
+		ordinal := map[*ssa.Return]int{}
+		for i, r := range ir.Returns(fn) {
+			ordinal[r] = i + 1
+		}
 		for i := range an.EntryRets {
 			ret, res, facts := an.EntryReturn(i)
 			if len(res) == 0 {
 				continue
 			}
-			k++
+			k = ordinal[ret]
 			last := res[len(res)-1]
 			if last.IsNil == 1 {
 				continue
@@ -75,7 +79,7 @@ func (c *Ctx) lpHelpersAcceptSpecLengths() {
 				name+" can refuse a length-prefixed field of at most 65535 bytes although the buffer is large enough: a well-formed packet with a long topic, payload, will, user name or password cannot be encoded (or decoded)")
 		}
 		n++
-		c.R.Count("returns of the length-prefix helpers examined", k)
+		c.R.Count("returns of the length-prefix helpers examined", len(an.EntryRets))
 	}
 	c.R.Floor("length-prefix helpers (readLPBytes, writeLPBytes)", n, len(names))
 }
@@ -1085,11 +1089,15 @@ func (c *Ctx) scratchHoldsTheMessage() {
 	an := bounds.NewAnalyzer(c.P)
 	an.JoinFacts = true
 	an.Probe = func(p *bounds.Probe) {
-		if p.Post || p.Instr == nil || p.Depth() != 0 {
+		if p.Post || p.Instr == nil {
 			return
 		}
 		call, ok := p.Instr.(*ssa.Call)
 		if !ok || !call.Common().IsInvoke() || call.Common().Method.Name() != "Encode" || len(call.Common().Args) != 1 {
+			return
+		}
+		// the writer itself, or a private helper of the connection it hands the wrap path to
+		if p.Depth() > 0 && recvNamed(p.Fn(0)) != "service" {
 			return
 		}
 		arg := call.Common().Args[0]
@@ -1109,7 +1117,13 @@ func (c *Ctx) scratchHoldsTheMessage() {
 			return // ring memory handed out by the reservation: B10 / B11
 		}
 		av, ok1 := p.Val(0, arg)
-		lv, ok2 := p.Val(0, lenCall)
+		var lv bounds.AVal
+		ok2 := false
+		for i := 0; i < p.Frames() && !ok2; i++ {
+			if p.Fn(i) == lenCall.Parent() {
+				lv, ok2 = p.Val(i, lenCall)
+			}
+		}
 		good := ok1 && ok2 && av.Kind == bounds.KSlice && lv.Kind == bounds.KInt && p.Proves(bounds.GE(av.Len, lv.Int))
 		rr := found[call]
 		if rr == nil {
